@@ -670,6 +670,23 @@ impl<'a> Walker<'a> {
             for (cls, det) in invariants(&snap0) {
                 self.viol("C12", cls, item, path, format!("{} in {}", det, pos.to_fen()));
             }
+            // the states the ENGINE's own listed moves lead to (the walk itself follows the model's
+            // moves): each listed move is applied, the invariants evaluated, and the move undone
+            for m in imoves.iter() {
+                match guarded(|| m.apply(board)) {
+                    Ok(Ok(())) => {
+                        l.n.add("engine_listed_moves_applied_for_invariants", 1);
+                        let s1 = snapshot(board);
+                        for (cls, det) in invariants(&s1) {
+                            self.viol("C12", cls, item, path, format!("after the engine's own listed move {} from {}: {}", desc_str(&describe_impl(m)), pos.to_fen(), det));
+                        }
+                        if !matches!(guarded(|| m.undo(board)), Ok(Ok(()))) {
+                            return Err(());
+                        }
+                    }
+                    _ => return Err(()), // reported by C03 / C04
+                }
+            }
         }
         if on(F05) {
             let scratch = build_board(&Pos { halfmove: 0, ply: 0, ..pos.clone() });
